@@ -27,11 +27,11 @@ CHECKS = {
  "C15": dict(level="fault_enumeration", sec="4/C15",
    technique="fault injection in transit (TamperIO on the sender) over a fresh malicious-mode IKNP session per fault; correlation oracle; independent shadow receiver with its own carry-less multiplier in honest runs",
    text="Fault enumeration: in thorough every (column,row) single-bit flip of the 64-row payload matrix and of the 256-row check matrix (40960 sessions), every bit of seed/x/t0/t1, plus double/column/row/k-subset flips and COT/ROT-level faults for several n; quick samples the same space. Oracle: sender error or correlation intact for the receiver's original choices. Honest runs must not abort and must match an independently recomputed receiver.",
-   note="Faults are bit flips in transit, not an adaptive adversary; the base OT is an ideal in-memory OT (harness code) so that the extension itself is what is under test."),
+   note="Faults are bit flips in transit chosen beforehand, plus one family of strictly causal adaptive multi-flips (no look-ahead); the base OT is an ideal in-memory OT (harness code) so that the extension itself is what is under test."),
  "C18": dict(level="exploration", sec="4/C18",
    technique="runtime monitor over the round API: deterministic per-round randomness, encode/decode subsets, one OS process per round, foreign-session/curve objects, truncation sweeps and mutations with recover()",
    text="Exploration (truncation sweeps are exhaustive for the small encodings): protocol runs on four curves against crypto/sha256, all 31 restart subsets across cases with byte-identical transcripts, real process-per-round runs exchanging files, fixed encoded sizes, rejection of foreign session/curve objects, every truncation of the small encodings, mutations that must never panic a decoder or the consuming round.",
-   note="crypto/sha256 is the reference; mutated-but-accepted messages are not required to be rejected (a flipped label is a well-formed message)."),
+   note="crypto/sha256 is the reference; a damaged message need not be rejected by its decoder (a flipped label is a well-formed message), but the round that consumes it must end in an error or in the correct digest."),
  "C20": dict(level="exploration", sec="4/C20",
    technique="runtime monitor at the vole/bmr API: both parties' return values recombined with math/big",
    text="Exploration: VOLE for boundary vector lengths (1..2000 across extension chunks), nine moduli incl. 2 and 2^256-189, boundary elements and values >= p, CO and ideal base OT, two transports, several Mul calls per instance; bmr.Fx/Fxk exhaustively over (a,b) and label patterns with CO and COT. Oracle: u-r == x*y mod p per position; r xor x_b == a*b / b*s.",
@@ -133,6 +133,28 @@ def main():
     }
     json.dump(m, open('/verif/MANIFEST.json','w'), indent=1)
     print("checks:", len(checks), "not claimed:", len(na))
+
+# workloads and oracles added while testing against seeded changes (DESIGN.md §13, rounds 4-5)
+ADDED = {
+ "C01": " Histories: the same key buffer refilled in place, garblings on a label source that dies part-way between good ones, kept (unreleased) garblings evaluated again after all later garblings; some cases run as 2-3 concurrent sessions in one process.",
+ "C02": " Every third case runs its sessions in concurrent groups on one shared *Circuit (half on a single P); signed arguments are handed over as negative numbers; some sessions have a garbler entropy source that dies part-way (a reported success must still be right); concurrent twin sessions in one process.",
+ "C03": " The generator also emits range loops, copies of arrays/structs, array/struct parameters and results, literal stores; every fifth program is compiled for the GMW target; some cases compile 2-3 programs concurrently.",
+ "C04": " Also: a scripted deviating peer asking for other OT ranges, and sessions whose entropy source dies after a PRNG number of bytes (R from a healthy twin session of the same seed; the transcript is scanned whether or not the session aborted).",
+ "C05": " Three dense PRNG-parameterised families next to the general generator: alias chains/fans, element/field stores of values narrower/equal/wider than the slot, and unrolled loops with thousands of values of interleaved lifetimes; concurrent twin sessions.",
+ "C06": " Plain Chou-Orlandi keeps the full size list (batches over 1024); every tenth case has entropy sources that die part-way (a reported success must still deliver the chosen labels); concurrent twin transfers in one process.",
+ "C08": " Also: other programs compiled first with new Compiler instances on one shared Params object; failed compilations in the history of a reused instance; the command line tool as OS processes.",
+ "C10": " Protocol runs rotate through 2..5 parties; three hand-made circuits of more than 65536 AND levels (bijective non-linear feedback register) per run.",
+ "C11": " Every slice ReceiveData returned is kept (not copied) and compared again after all later receives; every eighth case drives each end from a sender and a receiver goroutine at once.",
+ "C12": " Plus two-operator sequences on the same constants: a value that differs from the run-time form and from its isolated fold is history dependence (new key family fold-depends-on-history).",
+ "C15": " Plus a strictly causal adaptive tamperer over two batches on one instance: from what already crossed the wire it predicts the next challenge, finds a zero-sum row set by elimination over GF(2) and flips one Delta-selected column in those rows.",
+ "C16": " Also single-bit flips (all bits of the short transcripts in thorough), paired and constant-mask corruptions 16 bytes apart, and every bit of the first eight bytes of the first two and last four transport writes of each direction (message framing).",
+ "C17": " Odd goroutines refill one key buffer in place; some garblings run on a label source that dies part-way; some garblings are kept by their slices only (handle dropped, never released) while garbage collections are forced.",
+ "C18": " A round-3 message damaged in one bit of any field, or answering another round-2 message of the same session id, must yield an error or the correct digest; absurd well-formed uvarint lengths (2^31..2^64-1) are spliced into the framed encodings; interleaved sessions in one process.",
+ "C20": " Word-sized moduli, concurrent Fx/Fxk sessions and concurrent twin VOLE sessions in one process.",
+}
+for _k, _v in ADDED.items():
+    CHECKS[_k]["text"] += _v
+
 HOOK_COMMITS = ['945a966', 'ac723c0']
 if __name__ == "__main__":
     main()
